@@ -58,7 +58,7 @@ func judgeC13(c *Case, tr *hx.Trace, w *ref.World) []Verdict {
 	epoch := 0
 	for i, e := range tr.Events {
 		switch {
-		case strings.HasPrefix(e, "heavy:"):
+		case strings.HasPrefix(e, "heavy:") || strings.HasPrefix(e, "read:"):
 			count++
 			if count > 1 {
 				out = append(out, Verdict{Sig: "C13:re-evaluated-without-invalidation:" + c.Meta["shape"], What: fmt.Sprintf("F.Heavy was called %d times in invalidation epoch %d (event %d of %v)", count, epoch, i, tr.Events)})
@@ -252,7 +252,80 @@ func C13(rep *ev.Reporter, tier string) {
 			}
 		}
 	}
-	RunFamily(rep, func(emit func(Case)) { gen(emit); genB(emit) }, 1500, bud, judgeC13)
-	rep.Coverage["rule"] = "programs in which the counted pure method F.Heavy(F.I) occurs in k=1..3 rules in each of 8 surroundings (alone, left/right of &&, right of ||, inside arithmetic, as a method argument, under negation, in an action right-hand side) together with 0..2 of 6 writer rules (assignment to the argument variable, assignment to a prefix-similar variable, external change + Forget(variable), Forget(call text), Changed(variable), assignment on another object), 2 constants, 2 fact states, every rule order at every cycle; a second family uses the counted call F.Iheavy(F.I2), whose TEXT contains the variable name F.I without depending on it, with writers Changed(F.I) / Forget(F.I) / assignment to F.I (none of which concerns the call) and assignment / Forget of F.I2 (which do). Oracle: between two invalidation events derived from the validated trace (firing of a rule that assigns F.I or calls Forget/Changed naming F.I or the call) the call counter advances by at most 1. Non-trivial: an epoch in which the call was read >=2 times and evaluated once."
-	rep.Assumptions = append(rep.Assumptions, "invalidating rules contain no counted call themselves, so the epoch boundary (their ExecuteRuleEntry) is unambiguous", "the run cap per (program, world) bounds 4-rule programs; capped explorations are reported")
+	// family C: a counted ACCESSOR (leaf field read F.P.V observed through a counting value node)
+	genC := func(emit func(Case)) {
+		invC := []struct {
+			name  string
+			rule  func() *grl.Rule
+			inval bool
+		}{
+			{"assign-leaf", func() *grl.Rule { return grl.R("vLeaf", grl.Sal(2), "G.I < 2", "F.P.V = G.I + 5", "G.I = G.I + 1") }, true},
+			{"assign-sibling-field", func() *grl.Rule { return grl.R("vSib", grl.Sal(2), "G.I2 < 2", `F.P.S = "x"`, "G.I2 = G.I2 + 1") }, false},
+			{"forget-leaf", func() *grl.Rule { return grl.R("vForget", grl.Sal(1), "G.K < 1", `Forget("F.P.V")`, "G.K = 1") }, true},
+			{"changed-leaf", func() *grl.Rule { return grl.R("vChanged", nil, "G.I8 < 1", `Changed("F.P.V")`, "G.I8 = 1") }, true},
+			{"assign-other-field", func() *grl.Rule { return grl.R("vOther", nil, "F.I < 2", "F.I = F.I + 1") }, false},
+			{"swap-parent-pointer", func() *grl.Rule { return grl.R("vSwap", nil, "G.I16 < 1", "F.P = F.P.Q", "G.I16 = 1") }, true},
+		}
+		var invs [][]int
+		invs = append(invs, nil)
+		for a := range invC {
+			invs = append(invs, []int{a})
+			for b := a + 1; b < len(invC); b++ {
+				invs = append(invs, []int{a, b})
+			}
+		}
+		world := func() *ref.World {
+			w := ref.NewWorld()
+			f := facts.New()
+			f.B = true
+			f.P = &facts.Sub{V: 1, Q: &facts.Sub{V: 1}}
+			w.Objs["F"] = f
+			w.Objs["G"] = facts.New()
+			return w
+		}
+		for si, sel := range sels {
+			if len(sel) > 2 {
+				continue
+			}
+			for ii, inv := range invs {
+				if len(sel)+len(inv) > maxRules {
+					continue
+				}
+				var rules []*grl.Rule
+				var shapes, invNames, invKinds []string
+				for i, sx := range sel {
+					sp := c13Surround[sx]
+					if sp.name == "method-arg" {
+						continue
+					}
+					name := fmt.Sprintf("u%d", i+1)
+					cond := strings.ReplaceAll(strings.ReplaceAll(sp.cond, "F.Heavy(F.I)", "F.P.V"), "%c", "1")
+					r := &grl.Rule{Name: name, When: grl.E(cond)}
+					if sp.act != "" {
+						r.Then = append(r.Then, grl.A(strings.ReplaceAll(sp.act, "F.Heavy(F.I)", "F.P.V")))
+					}
+					r.Then = append(r.Then, grl.A(fmt.Sprintf("F.Act(%d)", i+1)), grl.A(fmt.Sprintf(`Retract("%s")`, name)))
+					rules = append(rules, r)
+					shapes = append(shapes, sp.name)
+				}
+				if len(rules) == 0 {
+					continue
+				}
+				for _, v := range inv {
+					r := invC[v].rule()
+					rules = append(rules, r)
+					invKinds = append(invKinds, invC[v].name)
+					if invC[v].inval {
+						invNames = append(invNames, r.Name)
+					}
+				}
+				emit(Case{ID: fmt.Sprintf("c13c/u%d/i%d", si, ii), Rules: rules, Worlds: []func() *ref.World{world}, WorldNames: []string{"w"},
+					Opts: hx.RunOpts{MaxCycle: maxCycle, NoSnapshots: true, CountReads: "F.P->V"},
+					Meta: map[string]string{"inval": strings.Join(invNames, ","), "shape": "accessor:" + strings.Join(shapes, "+") + "/" + strings.Join(invKinds, "+")}})
+			}
+		}
+	}
+	RunFamily(rep, func(emit func(Case)) { gen(emit); genB(emit); genC(emit) }, 1500, bud, judgeC13)
+	rep.Coverage["rule"] = "programs in which the counted pure method F.Heavy(F.I) occurs in k=1..3 rules in each of 8 surroundings (alone, left/right of &&, right of ||, inside arithmetic, as a method argument, under negation, in an action right-hand side) together with 0..2 of 6 writer rules (assignment to the argument variable, assignment to a prefix-similar variable, external change + Forget(variable), Forget(call text), Changed(variable), assignment on another object), 2 constants, 2 fact states, every rule order at every cycle; a second family uses the counted call F.Iheavy(F.I2), whose TEXT contains the variable name F.I without depending on it, with writers Changed(F.I) / Forget(F.I) / assignment to F.I (none of which concerns the call) and assignment / Forget of F.I2 (which do); a third family counts a field ACCESSOR instead of a method: leaf reads of F.P.V observed through a counting data context / value node wrapper, with writers assigning the leaf, a sibling field, another field, swapping the parent pointer, Forget/Changed naming the leaf. Oracle: between two invalidation events derived from the validated trace (firing of a rule that assigns F.I or calls Forget/Changed naming F.I or the call) the call counter advances by at most 1. Non-trivial: an epoch in which the call was read >=2 times and evaluated once."
+	rep.Assumptions = append(rep.Assumptions, "invalidating rules contain no counted call themselves, so the epoch boundary (their ExecuteRuleEntry) is unambiguous", "the run cap per (program, world) bounds 4-rule programs; capped explorations are reported", "accessor family: invalidating rules do not read the counted leaf themselves; the leaf is never the target of a compound assignment")
 }
